@@ -262,6 +262,7 @@ let c19_judge c obs =
 (* ---------------- C03 ---------------- *)
 let c03_judge _c obs =
   match obs with
+  | L [L [A "stuck"]; _] -> "bad requests-entangled-under-interleaving (a request parked or finished on behalf of another one: the scheduler was left waiting)"
   | L [L (A "reqs" :: rs); L (A "solo" :: ss)] ->
     let rec go i rs ss = match rs, ss with
       | [], [] -> "ok"
